@@ -1,0 +1,137 @@
+//! Verification hooks. Compiled only with `--cfg roughenough_verif`; they observe and
+//! pause, they never change what the server computes.
+//!
+//! * `point(kind, arg)`: a visible step. No-op unless (a) the calling thread installed an
+//!   in-process callback with `set_callback`, or (b) the process was started with
+//!   `ROUGHENOUGH_VERIF_CTL=<unix socket path>`, in which case the thread reports
+//!   `P <thread> <kind> <arg>` to the controller and blocks until it receives one byte.
+//! * `watch_flag(f)`: under a controller, a helper thread reports `N verif-watch flag_stored`
+//!   once `f()` turns false (so the controller knows a delivered signal has been recorded).
+//! * `poll_override()`: poll timeout to use instead of the built-in 100 ms.
+
+use std::cell::RefCell;
+use std::io::{Read, Write};
+use std::os::unix::net::UnixStream;
+use std::sync::atomic::{AtomicI64, Ordering};
+use std::time::Duration;
+
+type Callback = Box<dyn FnMut(&str, i64)>;
+
+thread_local! {
+    static CALLBACK: RefCell<Option<Callback>> = RefCell::new(None);
+    static CONN: RefCell<Option<UnixStream>> = RefCell::new(None);
+}
+
+static POLL_OVERRIDE_MS: AtomicI64 = AtomicI64::new(-1);
+
+fn ctl_path() -> Option<String> {
+    std::env::var("ROUGHENOUGH_VERIF_CTL").ok().filter(|p| !p.is_empty())
+}
+
+/// True when a process-level controller is attached.
+pub fn controlled() -> bool {
+    ctl_path().is_some()
+}
+
+/// Install (or remove) the in-process callback of the calling thread.
+pub fn set_callback(cb: Option<Callback>) {
+    CALLBACK.with(|c| *c.borrow_mut() = cb);
+}
+
+/// Set the process-wide poll timeout override in milliseconds (negative: none).
+pub fn set_poll_override_ms(ms: i64) {
+    POLL_OVERRIDE_MS.store(ms, Ordering::SeqCst);
+}
+
+pub fn poll_override() -> Option<Duration> {
+    let ms = POLL_OVERRIDE_MS.load(Ordering::SeqCst);
+    if ms >= 0 {
+        return Some(Duration::from_millis(ms as u64));
+    }
+    std::env::var("ROUGHENOUGH_VERIF_POLL_MS")
+        .ok()
+        .and_then(|v| v.parse::<u64>().ok())
+        .map(Duration::from_millis)
+}
+
+fn thread_name() -> String {
+    std::thread::current().name().unwrap_or("unnamed").to_string()
+}
+
+fn report(line: &str, wait: bool) {
+    let path = match ctl_path() {
+        Some(p) => p,
+        None => return,
+    };
+    CONN.with(|c| {
+        let mut c = c.borrow_mut();
+        if c.is_none() {
+            match UnixStream::connect(&path) {
+                Ok(s) => *c = Some(s),
+                Err(_) => return,
+            }
+        }
+        let s = c.as_mut().unwrap();
+        if s.write_all(line.as_bytes()).is_err() {
+            return;
+        }
+        if wait {
+            let mut b = [0u8; 1];
+            let _ = s.read_exact(&mut b);
+        }
+    });
+}
+
+pub fn point(kind: &str, arg: i64) {
+    let taken = CALLBACK.with(|c| c.borrow_mut().take());
+    if let Some(mut cb) = taken {
+        cb(kind, arg);
+        CALLBACK.with(|c| {
+            let mut c = c.borrow_mut();
+            if c.is_none() {
+                *c = Some(cb);
+            }
+        });
+    }
+    if controlled() {
+        report(&format!("P {} {} {}\n", thread_name(), kind, arg), true);
+    }
+}
+
+pub fn notify(kind: &str) {
+    if controlled() {
+        report(&format!("N {} {} 0\n", thread_name(), kind), false);
+    }
+}
+
+/// Under a controller, start a helper thread that reports once `keep_running()` is false.
+pub fn watch_flag(keep_running: fn() -> bool) {
+    if !controlled() {
+        return;
+    }
+    let _ = std::thread::Builder::new()
+        .name("verif-watch".to_string())
+        .spawn(move || loop {
+            if !keep_running() {
+                notify("flag_stored");
+                return;
+            }
+            std::thread::sleep(Duration::from_micros(200));
+        });
+}
+
+/// Reports `X <thread> exit|panic` when dropped (end of the thread's main function).
+pub struct ThreadGuard;
+
+pub fn thread_guard() -> ThreadGuard {
+    ThreadGuard
+}
+
+impl Drop for ThreadGuard {
+    fn drop(&mut self) {
+        if controlled() {
+            let how = if std::thread::panicking() { "panic" } else { "exit" };
+            report(&format!("X {} {} 0\n", thread_name(), how), false);
+        }
+    }
+}
